@@ -21,8 +21,13 @@ nest: constraint caches below the evaluator cache; the key function is abstract)
                              `origin_repetitions` tags, which `DerivationTree.__hash__` does not cover; no key
                              computed from the hashed view can be right for two trees that differ only in tags
 * `C11_stale_rep_bounds_history`  a concrete history (evaluate `a`, then `b`) with cached ≠ fresh
-* `C11_rep_bounds_refines_partial`  PARTIAL: with repetition bounds the refinement holds under the extra
+* `C11_rep_bounds_refines_partial`  PARTIAL: with a structure-only key the refinement holds under the extra
                              hypothesis `TagsDeterminedByShape` (equal hashed views ⇒ equal groups)
+* `C11_source_keys_cover_tags`  what the CURRENT source does (Generated/MemoKey.lean, re-read from the AST of
+                             repetition_bounds.py / evaluation.py / tree.py on every run): both keys are
+                             extended by `origin_signature()`, which covers every tag (fix a55700f5)
+* `C11_rep_bounds_refines`  with the key of the source configuration, cached = fresh for repetition bounds
+                             after ANY history, with no hypothesis besides absence of hash collisions
 
 Hypotheses that are *not* discharged (they are about CPython's `hash`): `KeyDetermines` / injectivity of
 the key on the inputs that occur.  Trees are values here: an edit produces a new input (C10 is the
@@ -31,6 +36,7 @@ does not cover what is read and is looked for by the harness (`harness/props/c11
 -/
 import Model.Memo
 import Proofs.EmitExact
+import Generated.MemoKey
 namespace FV
 open Memo
 
@@ -235,5 +241,62 @@ theorem C11_rep_bounds_refines_partial (H : Tree → K) (D : Tagged → Prop)
 /-- non-vacuity: a domain on which the hypotheses hold (`{tagA}`) and the conclusion is informative -/
 example : TagsDeterminedByShape (fun x => x = tagA) := by
   intro a b ha hb _; rw [ha, hb]
+
+/-! ## 5. repetition bounds: the key the source computes now -/
+
+/-- the key of `RepetitionBoundsConstraint.cache` (and, with repetition bounds present, of
+    `Evaluator._fitness_cache`) as a function of what the translator found in the source: the hash of the
+    structure alone, or of the structure together with the origin tags -/
+def repKey (coversTags : Bool) (H : Tree → K) (H2 : Tree × List RepGroup → K) (x : Tagged) : K :=
+  if coversTags then H2 (x.view, x.groups) else H x.view
+
+/-- OBLIGATION ON THE SOURCE: the current source extends both keys by the origin tags, and
+    `origin_signature` covers the tags of the node and of every descendant.  Reverting a55700f5 (or keying
+    one of the two caches by the tree hash alone again) turns a generated constant to `false` and breaks this
+    theorem and the one below. -/
+theorem C11_source_keys_cover_tags :
+    Generated.MemoKey.repKeyCoversTags = true ∧ Generated.MemoKey.evalKeyCoversTags = true ∧
+    Generated.MemoKey.signatureCoversTags = true := by decide
+
+omit [DecidableEq K] in
+/-- with the tags in the key, equal keys mean equal repetition-bounds fitness (no collision among the
+    keys seen) — the hypothesis `TagsDeterminedByShape` is gone -/
+theorem C11_rep_key_determines (H : Tree → K) (H2 : Tree × List RepGroup → K) (D : Tagged → Prop)
+    (hinj : ∀ a b, D a → D b → H2 (a.view, a.groups) = H2 (b.view, b.groups) → (a.view, a.groups) = (b.view, b.groups)) :
+    KeyDetermines (repKey Generated.MemoKey.repKeyCoversTags H H2) repFresh D := by
+  intro a b ha hb hk
+  have hk' : H2 (a.view, a.groups) = H2 (b.view, b.groups) := by
+    simpa [repKey, C11_source_keys_cover_tags.1] using hk
+  have := hinj a b ha hb hk'
+  unfold repFresh
+  rw [(Prod.mk.inj this).2]
+
+/-- cached = fresh for repetition bounds after ANY history of evaluations, for the key of the source
+    configuration (full statement for this constraint class; the only hypothesis left is the absence of
+    hash collisions among the keys that occur) -/
+theorem C11_rep_bounds_refines (H : Tree → K) (H2 : Tree × List RepGroup → K) (D : Tagged → Prop)
+    (hinj : ∀ a b, D a → D b → H2 (a.view, a.groups) = H2 (b.view, b.groups) → (a.view, a.groups) = (b.view, b.groups))
+    (hist : List Tagged) (hh : ∀ j ∈ hist, D j) (i : Tagged) (hi : D i) :
+    let L : Layer Tagged K Fit Unit :=
+      ⟨repKey Generated.MemoKey.repKeyCoversTags H H2, fun _ x => (repFresh x, ())⟩
+    (L.step (L.replay ([], ()) hist) i).1 = repFresh i := by
+  intro L
+  exact C11_memo_refines L (fun _ => True) repFresh D (fun _ x _ _ => ⟨rfl, trivial⟩)
+    (C11_rep_key_determines H H2 D hinj) () trivial hist hh i hi
+
+/-- non-vacuity: on the two-tree domain of §4 (where the structure-only key fails) a key over
+    (structure, tags) that is injective there exists (the number of groups), and the theorem gives the fresh
+    answer for the stale history of §4 -/
+example :
+    let L : Layer Tagged Nat Fit Unit :=
+      ⟨repKey Generated.MemoKey.repKeyCoversTags (fun t => t.size) (fun p => p.2.length), fun _ x => (repFresh x, ())⟩
+    (L.step (L.replay ([], ()) [tagA]) tagB).1 = repFresh tagB := by
+  refine C11_rep_bounds_refines (fun t => t.size) (fun p => p.2.length) (fun x => x = tagA ∨ x = tagB) ?_
+    [tagA] (fun j hj => by simp at hj; exact .inl hj) tagB (.inr rfl)
+  rintro a b (rfl | rfl) (rfl | rfl) h
+  · rfl
+  · exact absurd h (by decide)
+  · exact absurd h (by decide)
+  · rfl
 
 end FV
